@@ -1,10 +1,10 @@
 (* Proofs/RenameFields.v — the field (or constant) names of one class are pairwise distinct
-   after RenameDuplicateAttributes + Filters.field_name, under two computable guards:
-     (1) every by-preference rename picked a free slug        [snd (rename_checked l)]
-     (2) no name that safe_name has to adjust (prefix for a leading digit / empty slug /
-         negative number, suffix for a reserved word) lands on a slug that another field
-         already has                                           [adjust_fresh]
-   and the three refutations that make the guards necessary. *)
+   after RenameDuplicateAttributes + Filters.field_name, under one computable guard:
+     no name that safe_name has to adjust (prefix for a leading digit / empty slug /
+     negative number, suffix for a reserved word) lands on a slug that another field
+     already has                                               [adjust_fresh]
+   and the two refutations that make the guard necessary.  (The former first guard, "every
+   by-preference rename picked a free slug", is gone with the fix for C07-F2.) *)
 From Coq Require Import NArith PeanoNat List Bool Lia String.
 From XV Require Import Base.Str Base.Dec Gen.SafeTables Model.Safe Model.Rename
   Proofs.SafeText Proofs.SafeCase Proofs.SafeTerm Proofs.RenameUnique Proofs.RenameInv.
@@ -134,12 +134,11 @@ Qed.
 
 Theorem fields_distinct_after_rename p k (l : list attr) :
   prefix_ok p = true ->
-  snd (rename_checked l) = true ->
   adjust_fresh p k (map a_name (rename_duplicate_attributes l)) = true ->
   NoDup (map (fun a => final_name p k (a_name a)) (rename_duplicate_attributes l)).
 Proof.
-  intros Hp Hc Hf.
-  pose proof (rename_slugs_distinct l Hc) as Hs.
+  intros Hp Hf.
+  pose proof (rename_slugs_distinct l) as Hs.
   assert (Hs' : NoDup (map alnum (map a_name (rename_duplicate_attributes l)))) by (rewrite map_map; exact Hs).
   pose proof (generic_distinct (final_name p k) (adjust_of p k) (apply_case k) (final_adjust p k Hp)
                 (fun a r => case_alnum k a r) _ Hs' Hf) as G.
@@ -153,25 +152,20 @@ Definition default_field (nm : str) : sres := field_name default_conventions nm.
 Definition fields_of (l : list attr) : list sres :=
   map (fun a => default_field (a_name a)) (rename_duplicate_attributes l).
 
-(* R1: by-preference rename produces a slug that is already taken *)
+(* former refutation R1 (by-preference rename onto a taken slug): fixed, now a positive example *)
 Definition witness_preference : list attr :=
   [fld "a" tag_ELEMENT; fld "a" tag_ATTRIBUTE; fld "a_attribute" tag_ELEMENT].
-Theorem fields_distinct_preference_refuted :
-  ~ NoDup (fields_of witness_preference) /\ snd (rename_checked witness_preference) = false.
-Proof.
-  split; [|vm_compute; reflexivity].
-  assert (E : fields_of witness_preference =
-              [SOk (Safe.lit "a"); SOk (Safe.lit "a_attribute"); SOk (Safe.lit "a_attribute")]) by (vm_compute; reflexivity).
-  rewrite E. intros H. inversion H as [|? ? _ H2]. inversion H2 as [|? ? H3 _]. apply H3. left. reflexivity.
-Qed.
+Example preference_witness_now_distinct :
+  fields_of witness_preference = map SOk [Safe.lit "a"; Safe.lit "a_attribute_1"; Safe.lit "a_attribute"].
+Proof. vm_compute. reflexivity. Qed.
 
 (* R2: the safe prefix for a leading digit lands on an existing field *)
 Definition witness_prefix : list attr := [fld "1a" tag_ELEMENT; fld "value_1a" tag_ELEMENT].
 Theorem fields_distinct_safe_prefix_refuted :
-  ~ NoDup (fields_of witness_prefix) /\ snd (rename_checked witness_prefix) = true /\
+  ~ NoDup (fields_of witness_prefix) /\
   adjust_fresh conv_field_name_prefix Snake (map a_name (rename_duplicate_attributes witness_prefix)) = false.
 Proof.
-  split; [|split; vm_compute; reflexivity].
+  split; [|vm_compute; reflexivity].
   assert (E : fields_of witness_prefix = [SOk (Safe.lit "value_1a"); SOk (Safe.lit "value_1a")]) by (vm_compute; reflexivity).
   rewrite E. intros H. inversion H as [|? ? H3 _]. apply H3. left. reflexivity.
 Qed.
@@ -179,10 +173,10 @@ Qed.
 (* R3: the suffix added to a reserved word lands on an existing field *)
 Definition witness_suffix : list attr := [fld "class" tag_ELEMENT; fld "class_value" tag_ELEMENT].
 Theorem fields_distinct_reserved_suffix_refuted :
-  ~ NoDup (fields_of witness_suffix) /\ snd (rename_checked witness_suffix) = true /\
+  ~ NoDup (fields_of witness_suffix) /\
   adjust_fresh conv_field_name_prefix Snake (map a_name (rename_duplicate_attributes witness_suffix)) = false.
 Proof.
-  split; [|split; vm_compute; reflexivity].
+  split; [|vm_compute; reflexivity].
   assert (E : fields_of witness_suffix = [SOk (Safe.lit "class_value"); SOk (Safe.lit "class_value")]) by (vm_compute; reflexivity).
   rewrite E. intros H. inversion H as [|? ? H3 _]. apply H3. left. reflexivity.
 Qed.
@@ -192,8 +186,7 @@ Definition example_ok : list attr :=
   [fld "a" tag_ELEMENT; fld "A" tag_ELEMENT; fld "a" tag_ATTRIBUTE; fld "class" tag_ELEMENT;
    fld "1a" tag_ELEMENT; fld "x" tag_ELEMENT; fld "x" tag_ATTRIBUTE].
 Example guards_nonvacuous :
-  snd (rename_checked example_ok) = true /\
   adjust_fresh conv_field_name_prefix Snake (map a_name (rename_duplicate_attributes example_ok)) = true /\
   fields_of example_ok = map SOk [Safe.lit "a"; Safe.lit "a_1"; Safe.lit "a_2"; Safe.lit "class_value";
                                   Safe.lit "value_1a"; Safe.lit "x"; Safe.lit "x_attribute"].
-Proof. split; [|split]; vm_compute; reflexivity. Qed.
+Proof. split; vm_compute; reflexivity. Qed.
